@@ -18,6 +18,26 @@ CHECKS = {
         text="Generated client programs (<=3 threads, stacks <=4 deep, nested submissions from every user-code site) are run against the unmodified library under a deterministic scheduler that pre-empts at every library source line; a wait-for cycle, a stuck client or a client still inside an API call after 10^4 virtual seconds is a violation. Exhaustive over single pre-emption placements of the catalogue programs; sampled elsewhere.",
         design_ref="DESIGN.md section 4 (C04), section 2",
         note=ENGINE_NOTE),
+    "C17": dict(
+        category="exploration", engine="plain",
+        technique="differential property-based testing: operator on f_proxy(f_return(v)) vs operator on v over an enumerated value pool and Hypothesis-drawn recursive values; virtual-clock cases for the timeout clause",
+        text="Every forwarded operator/conversion/attribute access is applied to the proxy and to a deep copy of the plain value; results must agree in type and value or in exception type. Failed inputs must surface their own exception; truth test/repr/str/==/hash/unknown dunders must return on a pending input; the timeout clause is decided under the virtual clock; f_nocancel is checked for every way its input can end. Exhaustive over the 33-value pool x all forwarded operators; sampled beyond.",
+        design_ref="DESIGN.md section 4 (C17)", note=PLAIN_NOTE),
+    "C14": dict(
+        category="exploration",
+        technique="model-based property testing: and/or fold over admissible linearisations of the completion events; exhaustive outcome x completion-order enumeration + Hypothesis-drawn concurrent completions under the deterministic scheduler",
+        text="Input futures are completed (value/exception/cancel/never) in every order for n<=4 (thorough n<=5), with duplicates, f_nocancel wrappers, already-done inputs and a cancel of the output at every position, and concurrently from 2-3 threads under generated tapes. The output must equal the fold of a linearisation consistent with real time; losers must receive cancel() after the decision and never before; f_nocancel inputs never.",
+        design_ref="DESIGN.md section 4 (C14)", note=ENGINE_NOTE),
+    "C15": dict(
+        category="exploration",
+        technique="model-based property testing: position table + first-failure over admissible linearisations; exhaustive outcome x order enumeration + Hypothesis-drawn concurrent completions under the deterministic scheduler",
+        text="f_zip/f_sequence/f_traverse inputs are completed in every order for n<=4 (thorough n<=5) incl. n=0, n=1000, duplicates, pre-done inputs, output cancels and fn raising at element k, and concurrently under generated tapes. Success must give position-wise results in the right container type; otherwise the first non-success of an admissible linearisation; an output cancel must reach every pending input; fn is called once per element in order.",
+        design_ref="DESIGN.md section 4 (C15)", note=ENGINE_NOTE),
+    "C16": dict(
+        category="exploration",
+        technique="model-based property testing: plain application as reference; exhaustive arity x completion-order enumeration with a non-commutative echo function + Hypothesis-drawn concurrent completions under the deterministic scheduler",
+        text="For every split of up to 4 (random: 9) argument futures into positional and keyword, and every completion order of function future and arguments (plus failures/cancels/never at every position), the output must equal fn(*args, **kwargs) on the plain values, fn must be called exactly once and only after the last input was completed, and a failing input or fn must surface its exception.",
+        design_ref="DESIGN.md section 4 (C16)", note=ENGINE_NOTE),
 }
 
 NOT_YET = {}
